@@ -9,8 +9,8 @@
 (* defined for unfinished inputs too (term = ""), so that the oracle can   *)
 (* be consulted after every input event (prefix monotonicity).             *)
 (*                                                                         *)
-(* Ref(x, hin) is the documented output of AST x when its hot inputs have  *)
-(* received the notification sequences hin[a] so far.                      *)
+(* Ref(x, tl) is the documented output of AST x when its hot inputs have   *)
+(* received the timeline tl (merged sequence of <<input, t, v>>) so far.   *)
 (***************************************************************************)
 EXTENDS RxCore
 
@@ -133,9 +133,97 @@ OfMsgs(ms, acc) ==
        ELSE IF m[1] = "C" THEN S(acc, "C", U)
        ELSE S(acc, "E", m[2])
 
-RECURSIVE Ref(_, _)
-(* hin[a] = notifications sent so far into hot subject a *since the subscription was made* *)
-Ref(x, hin) ==
+(* the notification sequence a stream value denotes *)
+RECURSIVE NMsgs(_)
+NMsgs(items) == IF items = <<>> THEN <<>> ELSE <<<<"N", Head(items)>>>> \o NMsgs(Tail(items))
+MsgsOf(s) == NMsgs(s.items) \o (IF s.term = "C" THEN <<<<"C", U>>>> ELSE IF s.term = "E" THEN <<<<"E", s.ev>>>> ELSE <<>>)
+
+(* A timeline is the sequence of notifications <<a, t, v>> sent into the hot     *)
+(* inputs a since the subscription was made.  Sel = what input a received.       *)
+RECURSIVE Sel(_, _)
+Sel(tl, a) == IF tl = <<>> THEN <<>>
+              ELSE (IF Head(tl)[1] = a THEN <<<<Head(tl)[2], Head(tl)[3]>>>> ELSE <<>>) \o Sel(Tail(tl), a)
+
+(* ----------------------------------------------------------------------- *)
+(* Two-input combinators: a fold over the merged timeline of what their    *)
+(* two inputs deliver, <<port, t, v>> with port 1 = the receiver (`self`), *)
+(* 2 = the argument.                                                       *)
+(* ----------------------------------------------------------------------- *)
+T0 == [out |-> <<>>, done |-> FALSE, c1 |-> FALSE, c2 |-> FALSE, l1 |-> NoneV, l2 |-> NoneV,
+       q1 |-> <<>>, q2 |-> <<>>, open |-> FALSE, d1 |-> FALSE, d2 |-> FALSE]
+
+Emit(z, v)    == [z EXCEPT !.out = Append(@, <<"N", v>>)]
+Finish(z, t, v) == [z EXCEPT !.out = Append(@, <<t, v>>), !.done = TRUE]
+
+(* both inputs completed => complete; first error => error (merge, zip, combine_latest) *)
+BothC(z, port) ==
+  LET z1 == IF port = 1 THEN [z EXCEPT !.c1 = TRUE] ELSE [z EXCEPT !.c2 = TRUE] IN
+  IF z1.c1 /\ z1.c2 THEN Finish(z1, "C", U) ELSE z1
+
+TwoStep(o, z0, ev, var) ==
+  LET port == ev[1] t == ev[2] v == ev[3]
+      (* an input that has terminated delivers nothing more *)
+      dead == (port = 1 /\ z0.d1) \/ (port = 2 /\ z0.d2)
+      z == IF t = "N" THEN z0 ELSE IF port = 1 THEN [z0 EXCEPT !.d1 = TRUE] ELSE [z0 EXCEPT !.d2 = TRUE]
+  IN
+  IF z0.done \/ dead THEN z0
+  ELSE
+  CASE o = "merge" ->
+         IF t = "N" THEN Emit(z, v) ELSE IF t = "E" THEN Finish(z, "E", v) ELSE BothC(z, port)
+    [] o = "zip" ->
+         IF t = "N" THEN
+           IF port = 1 THEN (IF z.q2 # <<>> THEN Emit([z EXCEPT !.q2 = Tail(@)], P(v, Head(z.q2)))
+                             ELSE [z EXCEPT !.q1 = Append(@, v)])
+           ELSE (IF z.q1 # <<>> THEN Emit([z EXCEPT !.q1 = Tail(@)], P(Head(z.q1), v))
+                 ELSE [z EXCEPT !.q2 = Append(@, v)])
+         ELSE IF t = "E" THEN Finish(z, "E", v) ELSE BothC(z, port)
+    [] o = "combine_latest" ->
+         IF t = "N" THEN
+           LET z1 == IF port = 1 THEN [z EXCEPT !.l1 = SomeV(v)] ELSE [z EXCEPT !.l2 = SomeV(v)] IN
+           IF IsSome(z1.l1) /\ IsSome(z1.l2) THEN Emit(z1, P(Unwrap(z1.l1), Unwrap(z1.l2))) ELSE z1
+         ELSE IF t = "E" THEN Finish(z, "E", v) ELSE BothC(z, port)
+    [] o = "with_latest_from" ->
+         IF port = 2 THEN (IF t = "N" THEN [z EXCEPT !.l2 = SomeV(v)]
+                           ELSE IF t = "E" THEN Finish(z, "E", v) ELSE z)
+         ELSE IF t = "N" THEN (IF IsSome(z.l2) THEN Emit(z, P(v, Unwrap(z.l2))) ELSE z)
+         ELSE Finish(z, t, v)
+    [] o = "take_until" ->
+         IF port = 2 THEN (IF t = "N" THEN Finish(z, "C", U) ELSE z)
+         ELSE IF t = "N" THEN Emit(z, v) ELSE Finish(z, t, v)
+    [] o = "skip_until" ->
+         (* AMBIGUOUS.md: a notifier that completes without an item also opens the gate (variant "su-c") *)
+         IF port = 2 THEN (IF t = "N" \/ (t = "C" /\ "su-c" \in var) THEN [z EXCEPT !.open = TRUE] ELSE z)
+         ELSE IF t = "N" THEN (IF z.open THEN Emit(z, v) ELSE z) ELSE Finish(z, t, v)
+    [] o = "sample" ->
+         (* AMBIGUOUS.md: a completing sampler also releases the pending item (variant "smp-c") *)
+         IF port = 1 THEN (IF t = "N" THEN [z EXCEPT !.l1 = SomeV(v)] ELSE Finish(z, t, v))
+         ELSE IF t = "E" THEN Finish(z, "E", v)
+         ELSE IF t = "N" \/ "smp-c" \in var
+              THEN (IF IsSome(z.l1) THEN Emit([z EXCEPT !.l1 = NoneV], Unwrap(z.l1)) ELSE z)
+              ELSE z
+    [] o = "buffer" ->
+         LET flush(zz) == IF zz.q1 # <<>> THEN Emit([zz EXCEPT !.q1 = <<>>], L(zz.q1)) ELSE zz IN
+         IF t = "E" THEN Finish(z, "E", v)
+         ELSE IF t = "C" THEN Finish(flush(z), "C", U)
+         ELSE IF port = 1 THEN [z EXCEPT !.q1 = Append(@, v)] ELSE flush(z)
+    [] OTHER -> z
+
+RECURSIVE TwoFold(_, _, _, _)
+TwoFold(o, z, evs, var) == IF evs = <<>> THEN z ELSE TwoFold(o, TwoStep(o, z, Head(evs), var), Tail(evs), var)
+
+(* interpretations the documentation leaves open (spec/AMBIGUOUS.md); a subscriber's log is *)
+(* accepted if it equals the reference under SOME combination of them                       *)
+AmbiguousChoices == {"su-c", "smp-c"}
+
+TwoOps == {"merge", "zip", "combine_latest", "with_latest_from", "take_until", "skip_until", "sample", "buffer"}
+(* operators that subscribe their argument before the receiver *)
+ArgFirst == {"with_latest_from", "skip_until"}
+
+Tag(port, msgs) == [i \in 1..Len(msgs) |-> <<port, msgs[i][1], msgs[i][2]>>]
+
+RECURSIVE Ref(_, _, _), InTL(_, _, _, _)
+(* documented output of AST x after its hot inputs received timeline tl *)
+Ref(x, tl, var) ==
   LET o == Op(x) IN
   CASE o = "of" -> S(<<PV(x)>>, "C", U)
     [] o = "of_option" -> S(IF IsSome(PV(x)) THEN <<Unwrap(PV(x))>> ELSE <<>>, "C", U)
@@ -147,12 +235,22 @@ Ref(x, hin) ==
     [] o = "never" -> S(<<>>, "", U)
     [] o = "throw" -> S(<<>>, "E", PV(x))
     [] o = "create" -> OfMsgs(PL(x), <<>>)
-    [] o = "subject" \/ o = "hotc" -> OfMsgs(hin[PA(x)], <<>>)
-    [] o \in RefUnaryOps -> RefUnary(x, Ref(S1(x), hin))
+    [] o = "subject" \/ o = "hotc" -> OfMsgs(Sel(tl, PA(x)), <<>>)
+    [] o \in RefUnaryOps -> RefUnary(x, Ref(S1(x), tl, var))
+    [] o \in TwoOps ->
+         LET z == TwoFold(o, T0, InTL(x, tl, 0, var), var) IN OfMsgs(z.out, <<>>)
     [] OTHER -> S(<<>>, "", U)
 
-(* the notification sequence a stream value denotes *)
-RECURSIVE NMsgs(_)
-NMsgs(items) == IF items = <<>> THEN <<>> ELSE <<<<"N", Head(items)>>>> \o NMsgs(Tail(items))
-MsgsOf(s) == NMsgs(s.items) \o (IF s.term = "C" THEN <<<<"C", U>>>> ELSE IF s.term = "E" THEN <<<<"E", s.ev>>>> ELSE <<>>)
+(* what the two inputs of x deliver, in order: at every timeline position k the NEW   *)
+(* notifications of each input (its documented output is prefix-monotone), the input  *)
+(* subscribed first delivering first                                                  *)
+InTL(x, tl, k, var) ==
+  IF k > Len(tl) THEN <<>>
+  ELSE LET pre == SubSeq(tl, 1, k)
+           new(y) == LET cur == MsgsOf(Ref(y, pre, var))
+                         old == IF k = 0 THEN <<>> ELSE MsgsOf(Ref(y, SubSeq(tl, 1, k - 1), var)) IN
+                     SubSeq(cur, Len(old) + 1, Len(cur))
+           a == Tag(1, new(S1(x)))
+           b == Tag(2, new(S2(x)))
+       IN (IF Op(x) \in ArgFirst THEN b \o a ELSE a \o b) \o InTL(x, tl, k + 1, var)
 =============================================================================
